@@ -25,14 +25,14 @@ pub(crate) fn seek_to_table<R: Seek>(
 
 /// Helper function to decrypt table data
 pub(crate) fn decrypt_table_data(data: &mut [u8], key: u32) {
-    use crate::crypto::{decrypt_block, decrypt_dword};
+    use crate::crypto::decrypt_block;
 
     if data.is_empty() || key == 0 {
         return;
     }
 
     // Process full u32 chunks
-    let (chunks, remainder) = data.split_at_mut((data.len() / 4) * 4);
+    let (chunks, _remainder) = data.split_at_mut((data.len() / 4) * 4);
 
     // Convert full chunks to u32 array for decryption
     let mut u32_buffer: Vec<u32> = chunks
@@ -48,16 +48,7 @@ pub(crate) fn decrypt_table_data(data: &mut [u8], key: u32) {
         chunks[i * 4..(i + 1) * 4].copy_from_slice(&bytes);
     }
 
-    // Handle remaining bytes (same way as encryption)
-    if !remainder.is_empty() {
-        let mut last_dword = [0u8; 4];
-        last_dword[..remainder.len()].copy_from_slice(remainder);
-
-        let encrypted_u32 = u32::from_le_bytes(last_dword);
-        let decrypted_u32 =
-            decrypt_dword(encrypted_u32, key.wrapping_add((chunks.len() / 4) as u32));
-
-        let decrypted_bytes = decrypted_u32.to_le_bytes();
-        remainder.copy_from_slice(&decrypted_bytes[..remainder.len()]);
-    }
+    // Trailing bytes that do not fill a whole DWORD are stored as they are: the cipher
+    // works on 32-bit words only, writers leave such a tail unencrypted. (The body of a
+    // compressed HET/BET table has an arbitrary length.)
 }
